@@ -71,6 +71,9 @@ func (c *Ctx) step(fr *Frame, st *State, reach T, instr ssa.Instruction) {
 		dk := mapDomKey(mt)
 		ds := arr(sInt, arr(ks, sBool))
 		c.heapSet(st, dk, ds, sto(c.heapGet(st, dk, ds), r, constArray(arr(ks, sBool), "false")))
+		if c.msumApplies(mt) {
+			c.sc.assume(eq(c.msumOf(st, mt, r), "0"))
+		}
 		fr.env[t] = Val{Typ: t.Type(), L: []T{r}}
 	case *ssa.MapUpdate:
 		m := fr.val(c, t.Map)
@@ -233,7 +236,7 @@ func (c *Ctx) doIndexAddr(fr *Frame, st *State, reach T, t *ssa.IndexAddr) {
 	case *types.Slice:
 		s := fr.val(c, t.X)
 		c.safe(what, reach, and(le("0", i), lt(i, s.L[2])), t.Pos())
-		idx := add(s.L[1], i)
+		idx := slIdx(s.L[1], i)
 		if isStructType(u.Elem()) {
 			fr.env[t] = Val{Typ: t.Type(), L: []T{c.elemRef(u.Elem(), s.L[0], idx)}}
 			return
@@ -611,6 +614,18 @@ func (c *Ctx) doNext(fr *Frame, st *State, reach T, t *ssa.Next) {
 	c.sc.assume(imp(ok, and(sel(dom, key), not(sel(vis, key)), c.leafFact(kl, key, st.top))))
 	qv := fmt.Sprintf("q.k.%d", c.nextID())
 	c.sc.assume(imp(not(ok), fmt.Sprintf("(forall ((%s %s)) (=> (select %s %s) (select %s %s)))", qv, ks, dom, qv, vis, qv)))
+	if c.msumApplies(mt) {
+		// partial sums over the visited set: msum(visited, val)
+		c.declMsum()
+		v0 := c.sc.def("mv0", arr(sStr, sStr), sel(c.heapGet(st, mapValKey(mt, ""), arr(sInt, arr(sStr, sStr))), m))
+		s0 := app("msum", vis, v0)
+		s1 := app("msum", sto(vis, key, "true"), v0)
+		c.sc.assume(and(eq(s1, add(s0, ite(sel(vis, key), "0", app("slen", sel(v0, key))))), ge(s0, "0")))
+		c.sc.assume(eq(app("msum", constArray(arr(sStr, sBool), "false"), v0), "0"))
+		qs := fmt.Sprintf("q.k.%d", c.nextID())
+		// exhausted iterator that visited only members: visited = dom
+		c.sc.assume(imp(not(ok), imp(fmt.Sprintf("(forall ((%s %s)) (=> (select %s %s) (select %s %s)))", qs, ks, vis, qs, dom, qs), eq(s0, app("msum", dom, v0)))))
+	}
 	st.iters[k] = c.sc.def("visited", c.iterSort[k], sto(vis, key, "true"))
 	val := c.mapGet(st, mt, m, key)
 	val = c.nameVal("next.v", val)
